@@ -35,6 +35,17 @@ pub fn check_convert(ts: i128) -> Result<(), String> {
     if !whole_in_range(a) {
         return Err(format!("OracleDate::from(Timestamp {ts}) = {a} is not a whole second inside the range"));
     }
+    // the raw constructor: a count that is not a whole second is refused or - should the library
+    // ever accept it - floored like the timestamp conversion; a whole second is accepted as it is
+    match guarded(|| OracleDate::try_from_usecs(ts as i64).map(|v| v.usecs() as i128))? {
+        Ok(v) if v != want => {
+            return Err(format!("OracleDate::try_from_usecs({ts}) = {v}, expected an error or the floor to the second {want}"));
+        }
+        Err(e) if ts == want => {
+            return Err(format!("OracleDate::try_from_usecs({ts}) = Err({e:?}) for a whole second inside the range"));
+        }
+        _ => {}
+    }
     // back to a timestamp: the same instant
     let back = guarded(|| Timestamp::from(ad::ora(a as i64)).usecs() as i128)?;
     if back != a {
